@@ -280,9 +280,11 @@ func finish(P *Program, verif, prop, tier string, seed int, results []*HarnessRe
 		}
 		if !r.Permute {
 			for _, w := range r.Witnesses {
-				ins := make([]replayInput, len(w.inputs))
-				for i, x := range w.inputs {
-					ins[i] = replayInput{Kind: x.Kind, Val: x.Val}
+				var ins []replayInput
+				for _, x := range w.inputs {
+					if !strings.HasPrefix(x.Kind, "_") {
+						ins = append(ins, replayInput{Kind: x.Kind, Val: x.Val})
+					}
 				}
 				c := replayCase{Property: prop, Harness: r.Name, Pkg: rel, Tier: gTier, Inputs: ins, Expect: "pass", Label: strings.Join(w.covers, ","), Obs: w.obs, Known: knownIDsWithStatusKnown()}
 				byPkg[rel] = append(byPkg[rel], pending{c: c, kind: "witness", r: r})
